@@ -301,7 +301,7 @@ def corr_component(ctx, comp, cases, nontrivial=None, sample_n=3, label=None, or
         if orc:
             stat["oracle_failures"] += 1
             bad.append({"kind": "oracle", "component": comp, "ops": case, "impl": impl, "model": model, "at": orc[0],
-                        "detail": detail, "oracle": oracle, "shrinkable": shrink})
+                        "detail": detail, "oracle": oracle, "shrinkable": shrink, "env": env})
         elif dif:
             stat["disagreements"] += 1
             bad.append({"kind": "disagree", "component": comp, "ops": case, "impl": impl, "model": model, "at": dif[0],
